@@ -30,20 +30,32 @@ def exT : Tree :=
 
 /-- a long sequence of steps without collapsing -/
 def exSteps : List TStep :=
-  [.rootAttach, .negra, .rules .negra, .verylow, .proot, .sym none, .boyd, .raising, .binarize false, .topnode]
+  [.rootAttach, .negra, .rules .negra, .boyd, .raising, .binarize false, .verylow, .proot, .sym none, .topnode]
 
 /-- a sequence with collapsing and uncollapsing in the middle -/
 def exStepsC : List TStep :=
-  [.negra, .collapse, .verylow, .boyd, .raising, .uncollapse, .binarize true, .collapse, .topnode]
+  [.negra, .boyd, .raising, .binarize true, .collapse, .verylow, .proot, .uncollapse, .sym none, .collapse, .topnode]
 
 /-- a one-token sentence: collapsing gives the bare token, `add_topnode` puts a constituent back -/
 def exOne : Tree := nd "S" [nd "NP" [lf 1 "N" "n"]]
 
+/-- the one-token sentence through collapse (bare token), punctuation steps on the bare token, topnode -/
+def exStepsOne : List TStep := [.collapse, .verylow, .proot, .sym none, .boyd, .uncollapse, .topnode]
+
 example : WF exT = true := by decide
 example : WF exOne = true := by decide
-example : ∃ t', boydSplit exT = .ok t' ∧ t'.leafNums = [5, 4, 3, 1, 2] := ⟨_, rfl, by decide⟩
+example : ∃ t', boydSplit exT = .ok t' ∧ t'.leafNums = [5, 1, 3, 4, 2] := ⟨_, rfl, by decide⟩
+
+-- the steps that can fail (`rules`, `boyd`, `binarize`) come first in the examples: the punctuation
+-- steps cannot be evaluated by `decide`/`rfl` (`removeLeaf` is compiled by well-founded recursion)
 example : ∃ t', applySteps exSteps exT = .ok t' := ⟨_, rfl⟩
 example : ∃ t', applySteps exStepsC exT = .ok t' := ⟨_, rfl⟩
+#guard (match applySteps exSteps exT with
+  | .ok t' => t'.leafNums == [1, 2, 3, 4, 5] && (consLabels t').map String.ofList == ["TOP", "S", "VP", "@VP", "@VP", "PP"]
+  | .error _ => false)
+#guard (match applySteps exStepsC exT with
+  | .ok t' => (wordsOf t').map (·.1) == [1, 2, 3, 4, 5] && (consLabels t').length == 4
+  | .error _ => false)
 example : ∃ t', applySteps [.collapse] exOne = .ok t' ∧ t'.isLeaf = true := ⟨_, rfl, rfl⟩
 
 /-! ### add_topnode -/
@@ -101,7 +113,7 @@ theorem collapse_WFc (t : Tree) (h : WF t = true) : WFc (collapse t) = true ∧ 
   ⟨(collapse_inv t).wfc (WFc_of_WF t h),
    wordsOf_of_leaves_eq t (collapse t) (by rw [wtok_eq_collapse]; exact Lemmas.Collapse.leaves_collapse t)⟩
 
-example : consLabels (collapse exT) = ["S".toList] ∧ WFc (collapse exT) = true := ⟨by decide, (collapse_WFc exT (by decide)).1⟩
+example : consLabels (collapse exT) = ["S".toList, "VP".toList] ∧ WFc (collapse exT) = true := ⟨by decide, (collapse_WFc exT (by decide)).1⟩
 -- the one-token case for which `WFc` is needed instead of `WF`
 example : (collapse exOne).isLeaf = true ∧ WF (collapse exOne) = false ∧ WFc (collapse exOne) = true := by decide
 
@@ -149,9 +161,8 @@ theorem seq_preserves_WFc (steps : List TStep) (t t' : Tree) (h : WF t = true) (
   exact ⟨i.wfc (WFc_of_WF t h), i.leafNums⟩
 
 -- a one-token sentence through collapse (bare token), punctuation steps on the bare token, topnode
-example : ∃ t', applySteps [.collapse, .verylow, .proot, .sym none, .boyd, .uncollapse, .topnode] exOne = .ok t' ∧
-    wordsOf t' = wordsOf exOne ∧ t'.noEmpty = true :=
-  ⟨_, rfl, seq_preserves_words _ exOne _ (by decide) rfl⟩
+example : ∃ t', applySteps exStepsOne exOne = .ok t' ∧ wordsOf t' = wordsOf exOne ∧ t'.noEmpty = true :=
+  ⟨_, rfl, seq_preserves_words exStepsOne exOne _ (by decide) rfl⟩
 
 /-! ### label multisets -/
 
@@ -168,6 +179,6 @@ theorem raising_bag (f : Fields) (ks : List Tree) :
 
 example : ∃ f ks, boydSplit exT = .ok (node f ks) ∧
     consLabels (node f ks) = ["S".toList, "VP".toList, "PP".toList, "VP".toList] ∧
-    consLabels (raising (node f ks)) = ["S".toList, "VP".toList] := ⟨_, _, rfl, by decide, by decide⟩
+    consLabels (raising (node f ks)) = ["S".toList, "PP".toList, "VP".toList] := ⟨_, _, rfl, by decide, by decide⟩
 
 end TT.Props.C04
